@@ -162,6 +162,14 @@ func (d *digest) UnmarshalBinary(b []byte) error {
 	if len(b) != marshaledSize {
 		return errors.New("crypto/blake2s: invalid hash state size")
 	}
+	// The digest size and the buffer offset index into fixed-size arrays
+	// in Sum and Write, so an out-of-range value must be rejected here.
+	if size := int(b[len(b)-BlockSize-2]); size < 1 || size > Size {
+		return errors.New("crypto/blake2s: invalid hash state")
+	}
+	if offset := int(b[len(b)-1]); offset > BlockSize {
+		return errors.New("crypto/blake2s: invalid hash state")
+	}
 	b = b[len(magic):]
 	for i := 0; i < 8; i++ {
 		b, d.h[i] = consumeUint32(b)
